@@ -41,12 +41,10 @@ def pooled(array, tag=""):
     if buffer is None:
         _POOL[key] = array
         return array
-    if not buffer.flags.writeable:  # a read-only argument: only its owner (this harness) refills it
-        buffer.setflags(write=True)
-        numpy.copyto(buffer, array)
-        buffer.setflags(write=False)
-        return buffer
+    # only the owner (this harness) refills the buffer; whatever an earlier call did to its flag is undone
+    buffer.setflags(write=True)
     numpy.copyto(buffer, array)
+    buffer.setflags(write=bool(array.flags.writeable))
     return buffer
 
 
